@@ -76,6 +76,14 @@ def ref_request(ex, i, step, states):
         cls, cfg = ex.objcfg[step["obj"]]
         req["cls"] = cls
         req["cfg"] = cfg
+    pre = []
+    for sp in list(step.get("args", [])) + list((step.get("kwargs") or {}).values()):
+        if isinstance(sp, dict) and sp.get("gen") == "result":
+            ps = ex.trace["steps"][sp["of"]]
+            pre.append({"index": sp["of"], "rng_state": states.get(sp["of"]),
+                        "step": {k: v for k, v in ps.items() if k in ("k", "fn", "args", "kwargs")}})
+    if pre:
+        req["prelude"] = pre
     return req
 
 
